@@ -33,6 +33,7 @@ def requests():
         Request(SO, fn=["stir::SymmetryOperation_PET_CartesianGrid_.*::transform_(bin_coordinates|view_segment_indices)"]),
         Request(DS, fn=["stir::DataSymmetriesForBins_PET_CartesianGrid::find_basic_bin", "stir::DataSymmetriesForBins_PET_CartesianGrid::find_basic_view_segment_numbers", "stir::DataSymmetriesForBins_PET_CartesianGrid::find_symmetry_operation_from_basic_bin"]),
         Request(PM, fn=["stir::Bin::operator=="]),
+        Request(DS, fn=["stir::DataSymmetriesForBins_PET_CartesianGrid::DataSymmetriesForBins_PET_CartesianGrid"]),
     ]
 
 
@@ -332,6 +333,72 @@ def rule_e(ctx, dfns):
     ctx.ob("C03.e-one-basic-finder", f.qn, "delegates", bool(calls), f.where(), "find_basic_bin obtains view/segment through %s" % (calls[0].callee.split("::")[-1] if calls else "?"))
 
 
+def rule_f_view_flags(ctx, cfns):
+    """The two view-symmetry switches are not independent: the view/segment finder treats `90 degrees` alone as folding every view
+    onto [0,45] degrees, while the symmetry-operation lookup maps views beyond 135 degrees back only under `180 degrees` (two beliefs
+    in one class; the header documents that with 90 on, the value given for 180 is irrelevant).  Rows are therefore right for every
+    combination of switches only if every constructor path ends with  90 on => 180 on.  Decided by abstract interpretation of the
+    constructor (member initialisers + body) over both flags for all values of the constructor's switch arguments."""
+    import itertools
+
+    from engine.absint import Explorer
+
+    D90, D180 = "this.do_symmetry_90degrees_min_phi", "this.do_symmetry_180degrees_min_phi"
+    n = 0
+    for f in cfns:
+        if not f.is_ctor or f.body is None or not f.cfg_raw or len(f.params) < 4:
+            continue
+        inits = {it.get("field"): node for it, node in f.inits if it.get("field") and node is not None}
+        if "do_symmetry_90degrees_min_phi" not in inits or "do_symmetry_180degrees_min_phi" not in inits:
+            continue
+        bools = [p for p in f.params if p["t"].replace("const ", "").strip() in ("bool", "_Bool")]
+        pk = ["v%d" % p["d"] for p in bools]
+        cfg = CFG(f)
+        # divisibility tests of the number of views: num_views % 2 != 0 implies num_views % 4 != 0 (only three combinations exist)
+        V4 = V2 = None
+        for m in f.walk():
+            if m.k == "BinaryOperator" and m.op == "!=" and key(m.c[1].strip()) == "0":
+                l = m.c[0].strip()
+                if l.k == "BinaryOperator" and l.op == "%" and key(l.c[0].strip()) == "this.num_views":
+                    if key(l.c[1].strip()) == "4":
+                        V4 = key(m)
+                    elif key(l.c[1].strip()) == "2":
+                        V2 = key(m)
+        div = [k for k in (V4, V2) if k is not None]
+        divs = [(False, False), (True, False), (True, True)] if len(div) == 2 else [tuple(x) for x in itertools.product((True, False), repeat=len(div))]
+        ex = Explorer(cfg, [D90, D180] + pk + div)
+
+        def on_el(m, st, _ex):
+            # (re)assignment of num_views: the divisibility facts refer to the new value
+            if div and m.k == "BinaryOperator" and m.op == "=" and key(m.c[0]) == "this.num_views":
+                return [tuple(st[: 2 + len(pk)]) + d for d in divs]
+            return None
+
+        entry = []
+        for vals in itertools.product((True, False), repeat=len(pk)):
+            st = ("U", "U") + vals
+            # member initialisers, in declaration order of the two flags
+            for i, fld in enumerate(("do_symmetry_90degrees_min_phi", "do_symmetry_180degrees_min_phi")):
+                v = ex._eval(inits[fld], st)
+                if v is None:
+                    st = None
+                    break
+                st = st[:i] + (v,) + st[i + 1 :]
+            if st is None:
+                ctx.unrec(f.qn, "member initialiser of a view-symmetry flag is not a boolean combination of the constructor's switches")
+                entry = None
+                break
+            entry.extend(st + d for d in divs)
+        if entry is None:
+            continue
+        exits = ex.run(entry, on_el)
+        bad = [s for s in exits if s[0] is True and s[1] is not True]
+        fid = f.qn + "(" + f.sig[:40] + ")"
+        ctx.ob("C03.f-view-symmetry-flags-consistent", fid, "90-implies-180", not bad and bool(exits), f.where(), "for all %d settings of the switches every constructor exit has 90-degree symmetry on => 180-degree symmetry on (%d exit states)" % (len(entry), len(exits)) if not bad else "the constructor can finish with the 90-degree view symmetry on and the 180-degree one off (e.g. switches %s): views beyond 135 degrees are folded but not mapped back" % (dict(zip([p["n"] for p in bools], bad[0][2 : 2 + len(pk)])),))
+        n += 1
+    return n
+
+
 def uniq(fns):
     seen, out = set(), []
     for f in fns:
@@ -361,7 +428,7 @@ def run(ctx):
     us = [ctx.ex.get(r) for r in reqs]
     if any(u is None for u in us):
         return
-    pm, rt, so, ds, be = (uniq(u.functions) for u in us)
+    pm, rt, so, ds, be, ctor = (uniq(u.functions) for u in us)
     rule_a(ctx, pm, be)
     rule_b(ctx, pm)
     rule_c(ctx, pm, rt)
@@ -369,6 +436,8 @@ def run(ctx):
     if n < 14:
         ctx.fail_broken("only %d symmetry operation classes analysed (16 confirmed by hand)" % n)
     rule_e(ctx, ds)
+    rule_f_view_flags(ctx, ctor)
+    ctx.require_count("C03.f-view-symmetry-flags-consistent", 1)
     ctx.require_count("C03.a-cache-key-injective", 12)
     ctx.require_count("C03.b-cached-row-is-finished-row", 4)
     ctx.require_count("C03.c-setup-drops-cache", 8)
